@@ -1,7 +1,7 @@
 (* Entry point of the executable model: one case (a [val]) in, one
    observation (a [val]) out.  The same function is extracted to OCaml
    (vv_eval) and re-evaluated on samples inside Coq by vm_compute. *)
-From VV Require Import Base.Bits Base.Rt Base.Val Gen.GenConsts Gen.GenLayout Gen.GenFns Spec.ValidityDec Model.Transport Model.BeServer.
+From VV Require Import Base.Bits Base.Rt Base.Val Gen.GenConsts Gen.GenLayout Gen.GenFns Spec.ValidityDec Spec.BeSpec Model.Transport Model.BeServer.
 Open Scope string_scope.
 Open Scope list_scope.
 Open Scope N_scope.
@@ -98,6 +98,7 @@ Definition run (c : val) : val :=
       if String.eqb fam "valid" then run_valid args
       else if String.eqb fam "valid-spec" then run_valid_spec args
       else if String.eqb fam "be" then run_be args
+      else if String.eqb fam "be-spec" then be_spec args
       else verror "family"
   | _ => verror "case"
   end.
